@@ -268,6 +268,17 @@ fn load(t: &Toks, step: &Value) -> GraphStore {
             assert_eq!(import(&mut s, &export(&src, 3), &[]), "ok");
             s
         }
+        // the same store after two more nodes were created and deleted again: its free lists are not empty, so the
+        // import allocates recycled ids (below the store's next fresh id) before fresh ones
+        "api-holes" => {
+            let mut s = build(t, &g, "api");
+            let a = s.create_node("Scratch");
+            let b = s.create_node("Scratch");
+            let _ = s.create_edge(a, b, "SCRATCH");
+            s.delete_node("default", a).expect("scratch");
+            s.delete_node("default", b).expect("scratch");
+            s
+        }
         via => build(t, &g, via),
     }
 }
